@@ -81,7 +81,25 @@ pub fn gen(ctx: &Ctx, rng: &mut Rng, out: &mut Vec<String>) {
         let d = shape.len();
         let n: usize = shape.iter().product();
         // non-negative counts, a few zeros
-        let data: Vec<f64> = (0..n).map(|_| if rng.chance(1, 6) { 0.0 } else { rng.range(1, 200) as f64 }).collect();
+        let mut data: Vec<f64> = (0..n).map(|_| if rng.chance(1, 6) { 0.0 } else { rng.range(1, 200) as f64 }).collect();
+        // a fifth of the inputs are already on frequency scale (dyadic fractions summing to exactly one, non-zero corners: what an
+        // earlier `view -n` produced), another tenth sum to one only after masking, another tenth are all zero except the corners
+        match si % 10 {
+            3 | 8 => {
+                let mut w: Vec<u64> = (0..n).map(|_| if rng.chance(1, 4) { 0 } else { rng.range(1, 9) }).collect();
+                w[0] = w[0].max(1); w[n - 1] = w[n - 1].max(1);
+                let tot: u64 = w.iter().sum(); let k = 1024 / tot.max(1);
+                // scale to integers summing to 1024, the remainder goes to the first cell
+                let mut v: Vec<u64> = w.iter().map(|x| x * k).collect(); let s2: u64 = v.iter().sum(); v[0] += 1024 - s2;
+                data = v.iter().map(|x| *x as f64 / 1024.0).collect();
+            }
+            5 if n > 2 => {
+                let inner: f64 = data[1..n - 1].iter().sum();
+                if inner > 0.0 { let c = 256.0 / inner; for x in data[1..n - 1].iter_mut() { *x = (*x * c).round() / 256.0; } let s2: f64 = data[1..n - 1].iter().sum(); data[1] += 1.0 - s2; data[0] = 0.5; data[n - 1] = 0.25; }
+            }
+            7 => { for x in data.iter_mut() { *x = 0.0; } data[0] = 3.0; data[n - 1] = 1.0; }
+            _ => {}
+        }
         for subset in 0u32..16 {
             let mut o = Opts::default();
             let mut cur_shape = shape.clone();
